@@ -86,13 +86,13 @@ rich('__gt__', lambda v: v > 0)
 rich('__ge__', lambda v: v >= 0)
 
 reg.add(Proc(I + 'InterfaceBase.__eq__', [('self', OBJ), ('other', OBJ)], source='interface.py:InterfaceBase.__eq__',
-             result=OBJ, calls={'self._compare': I + 'NameAndModuleComparisonMixin._compare'}, locals={'$int_eq': True},
+             result=OBJ, calls={'self._compare': I + 'NameAndModuleComparisonMixin._compare'}, locals={'$int_eq': True}, dynattr=DYN,
              requires=self_ok,
              ensures=lambda c: [('notimplemented', z3.Implies(cmp_spec(c) == NOTIMPL, c.res == NOTIMPL)),
                                 ('equal-iff-keys-equal', z3.Implies(cmp_spec(c) != NOTIMPL,
                                                                      c.res == box_bool(unbox_int(cmp_spec(c)) == 0)))]))
 reg.add(Proc(I + 'InterfaceBase.__ne__', [('self', OBJ), ('other', OBJ)], source='interface.py:InterfaceBase.__ne__',
-             result=OBJ, calls={'self._compare': I + 'NameAndModuleComparisonMixin._compare'}, locals={'$int_eq': True},
+             result=OBJ, calls={'self._compare': I + 'NameAndModuleComparisonMixin._compare'}, locals={'$int_eq': True}, dynattr=DYN,
              requires=self_ok,
              ensures=lambda c: [('notimplemented', z3.Implies(cmp_spec(c) == NOTIMPL, c.res == NOTIMPL)),
                                 ('negation-of-eq', z3.Implies(cmp_spec(c) != NOTIMPL,
